@@ -208,14 +208,17 @@ func build(td TD) (t reflect.Type, err error) {
 	return nil, fmt.Errorf("unknown kind %q", td.K)
 }
 
-// predictable reports whether the codec model covers t (no channel/func/complex/uintptr,
-// unknown custom marshalers, unusable map keys or unmodelled tag options outside json:"-").
+// predictable reports whether values of t are round-tripped: everything except the shapes
+// the real validator accepts but the codec model does not cover (pointer-receiver or unknown
+// custom marshalers, the ,string / omitzero options). Kinds the validator must reject
+// (channels, functions, complex numbers, unusable map keys) ARE round-tripped, so that a
+// validator that starts accepting them yields a concrete failing value.
 func predictable(t reflect.Type, busy map[reflect.Type]bool) bool {
 	if busy[t] {
 		return false
 	}
 	term := jm.TypeTerm(t)
-	for _, bad := range []string{"KChan", "KFunc", "KOther", "TOpaque", "MKBad", "false [])"} {
+	for _, bad := range []string{"TOpaque", "false [])"} {
 		if strings.Contains(term, bad) {
 			return false
 		}
